@@ -223,3 +223,130 @@ func init() {
 	externals["sync/atomic.CompareAndSwapPointer"] = atomicCAS
 	_ = fmt.Sprint
 }
+
+// ---- fmt: a small exact model of the verbs the analysed code uses on possibly-symbolic operands; anything else runs the real fmt code
+// (which works for concrete operands as far as the interpreter's reflect emulation goes).
+
+func hexDigitTerm(nib string, upper bool) string {
+	a := 87 // 'a' - 10
+	if upper {
+		a = 55 // 'A' - 10
+	}
+	return fmt.Sprintf("(ite (bvult %s (_ bv10 8)) (bvadd %s (_ bv48 8)) (bvadd %s (_ bv%d 8)))", nib, nib, nib, a)
+}
+
+// formatSym renders format with args; ok=false if a verb/operand combination is not modelled.
+func formatSym(format string, args []value) (symstr, bool) {
+	var out symstr
+	ai := 0
+	for i := 0; i < len(format); i++ {
+		c := format[i]
+		if c != '%' {
+			out = append(out, c)
+			continue
+		}
+		j := i + 1
+		for j < len(format) && (format[j] == '0' || format[j] == '-' || format[j] == '+' || format[j] == '#' || (format[j] >= '1' && format[j] <= '9')) {
+			j++
+		}
+		if j >= len(format) {
+			return nil, false
+		}
+		spec, verb := format[i+1:j], format[j]
+		i = j
+		if verb == '%' {
+			out = append(out, byte('%'))
+			continue
+		}
+		if ai >= len(args) {
+			return nil, false
+		}
+		a := args[ai]
+		ai++
+		if itf, ok := a.(iface); ok {
+			a = itf.v
+		}
+		switch x := a.(type) {
+		case sym:
+			if x.bits == 8 && (verb == 'X' || verb == 'x') && spec == "02" {
+				hi := fmt.Sprintf("(bvlshr %s (_ bv4 8))", x.t)
+				lo := fmt.Sprintf("(bvand %s (_ bv15 8))", x.t)
+				out = append(out, cur.mkInt(8, false, hexDigitTerm(hi, verb == 'X')), cur.mkInt(8, false, hexDigitTerm(lo, verb == 'X')))
+				continue
+			}
+			return nil, false
+		case symstr:
+			if (verb == 's' || verb == 'v') && spec == "" {
+				out = append(out, x...)
+				continue
+			}
+			return nil, false
+		case string:
+			s := fmt.Sprintf("%"+spec+string(verb), x)
+			out = append(out, toSymstr(s)...)
+		case bool, int, int8, int16, int32, int64, uint, uint8, uint16, uint32, uint64, uintptr, float32, float64:
+			s := fmt.Sprintf("%"+spec+string(verb), x)
+			out = append(out, toSymstr(s)...)
+		default:
+			return nil, false
+		}
+	}
+	return out, true
+}
+
+func variadicArgs(v value) []value {
+	if v == nil {
+		return nil
+	}
+	return v.([]value)
+}
+
+func extFmtSprintf(fr *frame, args []value) value {
+	f, ok := args[0].(string)
+	if ok {
+		if s, ok := formatSym(f, variadicArgs(args[1])); ok {
+			return normStr(s)
+		}
+	}
+	unsupported("fmt.Sprintf(%v, ...) with these operands", args[0])
+	return nil
+}
+
+func extFmtFprintf(fr *frame, args []value) value {
+	f, ok := args[1].(string)
+	if ok {
+		if s, ok := formatSym(f, variadicArgs(args[2])); ok {
+			w := args[0].(iface)
+			// call w.Write([]byte)
+			var meth *ssa.Function
+			if w.t != nil {
+				mset := fr.i.prog.MethodSets.MethodSet(w.t)
+				for k := 0; k < mset.Len(); k++ {
+					if mset.At(k).Obj().Name() == "Write" {
+						meth = fr.i.prog.MethodValue(mset.At(k))
+					}
+				}
+			}
+			if meth == nil {
+				unsupported("fmt.Fprintf: writer without Write method")
+			}
+			buf := make([]value, len(s))
+			copy(buf, s)
+			r := call(fr.i, fr, token.NoPos, meth, []value{w.v, buf})
+			return r
+		}
+	}
+	unsupported("fmt.Fprintf(%v, ...) with these operands", args[1])
+	return nil
+}
+
+func extFmtErrorf(fr *frame, args []value) value {
+	// the message text of errors is not an observable of any harness: a fixed error value of the interpreter's error type
+	return iface{t: fr.i.runtimeErrorString, v: "fmt.Errorf(...)"}
+}
+
+func init() {
+	externals["fmt.Sprintf"] = extFmtSprintf
+	externals["fmt.Fprintf"] = extFmtFprintf
+	externals["fmt.Errorf"] = extFmtErrorf
+}
